@@ -132,7 +132,7 @@ func c18MergeContexts(c *Ctx, aspects map[string]bool) {
 				}
 			}
 			// the watcher
-			if len(gos) != 1 || gos[0].FnTerm == nil || gos[0].Snap == nil {
+			if len(gos) != 1 || ev.EventFn(gos[0]) == nil || gos[0].Snap == nil {
 				okEither = false
 				if aspects["either"] {
 					c.Fail(name+"#either", pos, "a merged context needs exactly one watcher for the other context", pathTrace(ev, p))
@@ -140,12 +140,12 @@ func c18MergeContexts(c *Ctx, aspects map[string]bool) {
 				continue
 			}
 			merged, cancel := wc.Res[0], wc.Res[1]
-			for _, q := range ev.CallTerm(gos[0].Snap, gos[0].FnTerm, nil) {
+			for _, q := range ev.RunEvent(gos[0].Snap, gos[0], nil) {
 				sels := eventsWhere(q, func(e *Event) bool { return e.Kind == EvSelect && e.Idx >= q.Base })
 				if len(sels) != 1 {
 					okTerm = false
 					if aspects["terminates"] {
-						c.Fail(c.fn(gos[0].FnTerm.Fn), c.P.FuncPos(gos[0].FnTerm.Fn), "the watcher must be a single select", pathTrace(ev, q))
+						c.Fail(c.fn(ev.EventFn(gos[0])), c.P.FuncPos(ev.EventFn(gos[0])), "the watcher must be a single select", pathTrace(ev, q))
 					}
 					continue
 				}
@@ -159,7 +159,7 @@ func c18MergeContexts(c *Ctx, aspects map[string]bool) {
 							if len(cs2) != 1 {
 								okEither = false
 								if aspects["either"] {
-									c.Fail(c.fn(gos[0].FnTerm.Fn), c.P.FuncPos(gos[0].FnTerm.Fn), "when the execution's context ends the merged context must be cancelled", pathTrace(ev, q))
+									c.Fail(c.fn(ev.EventFn(gos[0])), c.P.FuncPos(ev.EventFn(gos[0])), "when the execution's context ends the merged context must be cancelled", pathTrace(ev, q))
 								}
 							}
 						}
@@ -171,13 +171,13 @@ func c18MergeContexts(c *Ctx, aspects map[string]bool) {
 				if !has2 {
 					okEither = false
 					if aspects["either"] {
-						c.Fail(c.fn(gos[0].FnTerm.Fn), c.P.FuncPos(gos[0].FnTerm.Fn), "the watcher does not wait on the execution's context (ctx2.Done())", pathTrace(ev, q))
+						c.Fail(c.fn(ev.EventFn(gos[0])), c.P.FuncPos(ev.EventFn(gos[0])), "the watcher does not wait on the execution's context (ctx2.Done())", pathTrace(ev, q))
 					}
 				}
 				if !hasMerged {
 					okTerm = false
 					if aspects["terminates"] {
-						c.Fail(c.fn(gos[0].FnTerm.Fn), c.P.FuncPos(gos[0].FnTerm.Fn), "the watcher goroutine has no case on the merged context's own Done(): calling the returned cancel function does not end it, so it lives until one of the source contexts ends (a leak per attempt with long-lived contexts)", pathTrace(ev, q))
+						c.Fail(c.fn(ev.EventFn(gos[0])), c.P.FuncPos(ev.EventFn(gos[0])), "the watcher goroutine has no case on the merged context's own Done(): calling the returned cancel function does not end it, so it lives until one of the source contexts ends (a leak per attempt with long-lived contexts)", pathTrace(ev, q))
 					}
 				}
 				if q.Exit != ExitReturn {
@@ -206,7 +206,7 @@ func c18MergeContexts(c *Ctx, aspects map[string]bool) {
 func c18HTTPAttempt(c *Ctx, aspects map[string]bool) {
 	c.Rule("http-attempt")
 	fn := c.P.Func("failsafehttp.doRequest")
-	if fn == nil || len(fn.AnonFuncs) == 0 {
+	if fn == nil {
 		c.Unresolved("failsafehttp.doRequest", "not found")
 		return
 	}
@@ -252,7 +252,12 @@ func c18HTTPAttempt(c *Ctx, aspects map[string]bool) {
 		c.Undecided(c.fn(fn)+"$1", c.P.FuncPos(fn), "per-attempt closure not found", "")
 		return
 	}
-	name, pos := c.fn(closure.Fn), c.P.FuncPos(closure.Fn)
+	// the per-attempt function, whether it is written as a closure or as a bound method
+	name, pos := c.fn(fn)+"$1", c.P.FuncPos(c.P.TargetOf(closure.Fn))
+	if len(closure.Fn.Params) != 1 {
+		c.Undecided(name, pos, "the per-attempt function does not take exactly the execution", "")
+		return
+	}
 	exec := ts.intern(&T{Op: "param", Aux: "exec", Typ: closure.Fn.Params[0].Type()})
 	qs := ev.CallTerm(st, closure, []*T{exec})
 	okAttempt, okCancelRuns := true, true
@@ -961,12 +966,13 @@ func c19Goroutines(c *Ctx) {
 	c.Rule("goroutines")
 	reviewed := map[string]string{
 		"failsafe.(*executor).executeAsync": "async runner: record(execute(…)) and exit (C15 runner rule: no blocking operation after execute)",
-		"hedgepolicy.(*executor).Apply$1":   "hedge attempt: after innerFn only atomics and one send that cannot block (C09.attempt)",
-		"timeout.(*executor).Apply$1":       "timeout callback (time.AfterFunc): CAS, listener, Cancel; no blocking operation (checked below)",
+		"hedgepolicy.(*executor).Apply":     "hedge attempt: after innerFn only atomics and one send that cannot block (C09.attempt)",
+		"timeout.(*executor).Apply":         "timeout callback (time.AfterFunc): CAS, listener, Cancel; no blocking operation (checked below)",
 		"util.MergeContexts":                "context merger: ends when a source context or the merged context itself is done (merge-contexts#terminates)",
 	}
 	n := 0
 	ok := true
+	ix := BuildIndex(c.P)
 	for _, fn := range c.P.Funcs {
 		for _, b := range fn.Blocks {
 			for _, in := range b.Instrs {
@@ -975,17 +981,11 @@ func c19Goroutines(c *Ctx) {
 				switch x := in.(type) {
 				case *ssa.Go:
 					kind = "go"
-					if cl, isCl := x.Call.Value.(*ssa.MakeClosure); isCl {
-						spawned = cl.Fn.(*ssa.Function)
-					} else if f, isF := x.Call.Value.(*ssa.Function); isF {
-						spawned = f
-					}
+					spawned = ix.resolveFnValue(x.Call.Value)
 				case *ssa.Call:
 					if cal := calleeOf(&x.Call); cal != nil && qualName(cal) == "time.AfterFunc" {
 						kind = "AfterFunc"
-						if cl, isCl := x.Call.Args[1].(*ssa.MakeClosure); isCl {
-							spawned = cl.Fn.(*ssa.Function)
-						}
+						spawned = ix.resolveFnValue(x.Call.Args[1])
 					}
 				}
 				if kind == "" {
@@ -993,7 +993,8 @@ func c19Goroutines(c *Ctx) {
 				}
 				n++
 				key := c.fn(fn)
-				if _, okr := reviewed[key]; !okr {
+				// the site is in a reviewed function, its closures, or helpers only it reaches
+				if !ix.WithinNames(fn, sortedKeys(reviewed)...) {
 					ok = false
 					c.Fail(key+"#"+kind, c.P.Pos(in.Pos()), "a goroutine / timer callback is started at a site that is not in the reviewed inventory: nothing shows that it ends when the execution does", "")
 					continue
